@@ -566,7 +566,15 @@ def compare(pair, combo, base, got, treebase=None):
             # a text-method result sent to a tree target: the tree's text must be the baseline's bytes
             exp = base['out'].decode('utf-8', 'replace')
             return None if tree_text(cg) == exp else ('tree-differs', 'text of the result tree differs from the text output')
-        return None if cb == cg else ('tree-differs', first_difference(cb, cg))
+        if cb != cg:
+            return ('tree-differs', first_difference(cb, cg))
+        # the same serializer behind another source / stylesheet form: the BYTES must be the same too (CDATA sections, escaping,
+        # declaration, indentation are decided by the stylesheet, not by the way it was supplied)
+        if (method == 'xml' and combo[2] in ('ostream', 'file', 'callback') and combo[3] == 'cpp' and combo[0] not in ('parsed-xerces', 'xerces-wrap')
+                and base['out'] != got['out']):      # (Xerces-DOM sources deliver attributes in name order: a known finding, same tree)
+            n = next((i for i in range(min(len(base['out']), len(got['out']))) if base['out'][i] != got['out'][i]), min(len(base['out']), len(got['out'])))
+            return ('lexical-form-differs', 'same tree, different bytes from byte %d: %r / %r' % (n, base['out'][max(0, n - 20):n + 30], got['out'][max(0, n - 20):n + 30]))
+        return None
     if base['out'] != got['out']:
         n = next((i for i in range(min(len(base['out']), len(got['out']))) if base['out'][i] != got['out'][i]), min(len(base['out']), len(got['out'])))
         return ('bytes-differ', 'first difference at byte %d; lengths %d / %d' % (n, len(base['out']), len(got['out'])))
